@@ -1,13 +1,13 @@
 mod symf; mod symcs;
 use ff::Field;
-use midnight_proofs::{circuit::{Layouter, SimpleFloorPlanner, Value}, plonk::{keygen_vk_with_k, prepare, Advice, Circuit, Column, ConstraintSystem, Constraints, Error, Fixed, Instance, Selector}, poly::Rotation};
+use midnight_proofs::{circuit::{Layouter, SimpleFloorPlanner, Value}, plonk::{keygen_vk_with_k, keygen_pk, create_proof, prepare, Advice, Circuit, Column, ConstraintSystem, Constraints, Error, Fixed, Instance, Selector}, poly::Rotation};
 use symf::*; use symcs::*;
 
-#[derive(Clone, Default)] struct C;
+#[derive(Clone, Default)] struct C(Option<SymF>);
 #[derive(Clone, Debug)] struct Cfg { a: Column<Advice>, b: Column<Advice>, q: Column<Fixed>, s: Selector, i: Column<Instance> }
 impl Circuit<SymF> for C {
     type Config = Cfg; type FloorPlanner = SimpleFloorPlanner; type Params = ();
-    fn without_witnesses(&self) -> Self { C }
+    fn without_witnesses(&self) -> Self { C(None) }
     fn configure(meta: &mut ConstraintSystem<SymF>) -> Cfg {
         let a = meta.advice_column(); let b = meta.advice_column(); let q = meta.fixed_column(); let s = meta.selector();
         let _ci = meta.instance_column(); let i = meta.instance_column();
@@ -19,10 +19,11 @@ impl Circuit<SymF> for C {
     fn synthesize(&self, c: Cfg, mut l: impl Layouter<SymF>) -> Result<(), Error> {
         let out = l.assign_region(|| "r", |mut r| {
             c.s.enable(&mut r, 0)?;
-            let a0 = r.assign_advice(|| "a", c.a, 0, || Value::<SymF>::unknown())?;
-            let b0 = r.assign_advice(|| "b", c.b, 0, || Value::<SymF>::unknown())?;
+            let w = match self.0 { Some(w) => Value::known(w), None => Value::unknown() };
+            let a0 = r.assign_advice(|| "a", c.a, 0, || w)?;
+            let b0 = r.assign_advice(|| "b", c.b, 0, || w)?;
             r.assign_fixed(|| "q", c.q, 0, || Value::known(SymF::from(7u64)))?;
-            let a1 = r.assign_advice(|| "a1", c.a, 1, || Value::<SymF>::unknown())?;
+            let a1 = r.assign_advice(|| "a1", c.a, 1, || w.map(|w| w * w + SymF::from(7u64)))?;
             r.constrain_equal(a0.cell(), b0.cell())?;
             Ok(a1) })?;
         l.constrain_instance(out.cell(), c.i, 0)
@@ -30,7 +31,7 @@ impl Circuit<SymF> for C {
 }
 fn main() {
     let params = SymParams { k: 4 };
-    let vk = keygen_vk_with_k::<SymF, SymCS, C>(&params, &C, 4).expect("keygen");
+    let vk = keygen_vk_with_k::<SymF, SymCS, C>(&params, &C(None), 4).expect("keygen");
     println!("vk ok: n={} repr={}", vk.n(), show(vk.transcript_repr(), 1));
     symcs::LOG.lock().unwrap().clear();
     let inst = [var("pi0"), var("pi1")];
@@ -40,5 +41,19 @@ fn main() {
     for l in symcs::LOG.lock().unwrap().iter() { println!("{l}"); }
     println!("--- guard queries {}", guard.queries.len());
     for q in &guard.queries { println!("{}", &q[..q.len().min(230)]); }
+    // ---------------- prover side, two proofs
+    println!("=========== PROVER");
+    symcs::LOG.lock().unwrap().clear();
+    let pk = keygen_pk::<SymF, SymCS, C>(vk.clone(), &C(None)).expect("keygen_pk");
+    let (w0, w1) = (var("w0"), var("w1"));
+    let circuits = [C(Some(w0)), C(Some(w1))];
+    let ci0 = [var("cpi0")]; let ci1 = [var("cpi1")];
+    let p0 = [w0 * w0 + SymF::from(7u64)]; let p1 = [w1 * w1 + SymF::from(7u64)];
+    let mut tp = <SymTranscript as midnight_proofs::transcript::Transcript>::init();
+    struct R; impl rand_core::RngCore for R { fn next_u32(&mut self) -> u32 { 4 } fn next_u64(&mut self) -> u64 { 4 } fn fill_bytes(&mut self, d: &mut [u8]) { for b in d { *b = 4; } } fn try_fill_bytes(&mut self, d: &mut [u8]) -> Result<(), rand_core::Error> { self.fill_bytes(d); Ok(()) } }
+    impl rand_core::CryptoRng for R {}
+    let r = create_proof::<SymF, SymCS, SymTranscript, C>(&params, &pk, &circuits, 1, &[&[&ci0[..], &p0[..]], &[&ci1[..], &p1[..]]], R, &mut tp);
+    println!("create_proof -> {:?}", r.is_ok());
+    for l in symcs::LOG.lock().unwrap().iter().take(40) { println!("{l}"); }
     let a = ARENA.lock().unwrap(); println!("arena nodes {}  path conds {}", a.nodes.len(), a.path.len());
 }
